@@ -3,7 +3,7 @@
 (* (regions/io/*/write.py, connect.py, core/registry.py)                                        *)
 (* fs maps the destination path "a" and a second path "b" to absent | file(content) | link(b).  *)
 (* A write request is split into the steps the code takes; the ORDER of the steps is the        *)
-(* property: text formats CheckExists -> Serialize -> OpenWrite, FITS Serialize -> WriteTo.     *)
+(* property: CheckExists -> Serialize -> OpenWrite (text formats) / WriteTo (FITS).            *)
 (* Whether serialisation succeeds is a parameter of the request (the spec does not predict      *)
 (* which lists fail, only what may happen to fs in each case).                                   *)
 EXTENDS Integers, Sequences, FiniteSets, TLC
@@ -19,9 +19,9 @@ Trunc == "truncated"
 VARIABLES fs, pc, req, result
 vars == <<fs, pc, req, result>>
 
-DestStates == {"absent", "file", "link", "dangling"}
+DestStates == {"absent", "file", "emptyfile", "link", "dangling"}        \* emptyfile: an existing file of length 0 (its content "old" is the empty string)
 InitFs(d) == CASE d = "absent" -> [a |-> Absent, b |-> Absent]
-               [] d = "file" -> [a |-> File(Old), b |-> Absent]
+               [] d \in {"file", "emptyfile"} -> [a |-> File(Old), b |-> Absent]
                [] d = "link" -> [a |-> Link, b |-> File(Old)]
                [] d = "dangling" -> [a |-> Link, b |-> Absent]
 LExists(f) == f.a.t # "absent"                                  \* os.path.lexists
@@ -32,11 +32,11 @@ Replace(f, c) == [f EXCEPT !.a = File(c)]                        \* remove the n
 
 Requests == [fmt : Formats, ow : BOOLEAN, ser : {"ok", "fail"}, dest : DestStates]
 Init == /\ req \in Requests /\ fs = InitFs(req.dest) /\ result = "-"
-        /\ pc = IF req.fmt = "fits" THEN "serialize" ELSE (IF SwapSteps THEN "open_first" ELSE "check")
+        /\ pc = IF req.fmt = "fits" THEN "check" ELSE (IF SwapSteps THEN "open_first" ELSE "check")
 
 IsText == req.fmt # "fits"
 (* --- text formats --- *)
-CheckExists == /\ pc = "check" /\ IsText
+CheckExists == /\ pc = "check"                                   \* every writer refuses an existing name (lexists) without overwrite
                /\ IF LExists(fs) /\ ~req.ow THEN pc' = "done" /\ result' = "OSError" ELSE pc' = "serialize" /\ UNCHANGED result
                /\ UNCHANGED <<fs, req>>
 Serialize == /\ pc = "serialize"
@@ -54,13 +54,8 @@ SerializeLate == /\ pc = "serialize_late"
                     ELSE fs' = WriteThrough(fs, New) /\ pc' = "done" /\ result' = "ok"
                  /\ UNCHANGED req
 (* --- FITS: astropy writeto(overwrite) after serialisation --- *)
-WriteTo == /\ pc = "writeto" /\ ~IsText
-           /\ \/ /\ Exists(fs) /\ ~req.ow /\ result' = "OSError" /\ UNCHANGED fs
-              \/ /\ Exists(fs) /\ req.ow /\ result' = "ok" /\ fs' \in {Replace(fs, New), WriteThrough(fs, New)}
-              \/ /\ ~Exists(fs) /\ fs.a.t = "link" /\ ~req.ow         \* dangling link: "exists" is ambiguous
-                 /\ \/ result' = "OSError" /\ UNCHANGED fs
-                    \/ result' = "ok" /\ fs' \in {WriteThrough(fs, New), Replace(fs, New)}
-              \/ /\ ~Exists(fs) /\ (fs.a.t # "link" \/ req.ow) /\ result' = "ok" /\ fs' \in {WriteThrough(fs, New), Replace(fs, New)}
+WriteTo == /\ pc = "writeto" /\ ~IsText                          \* reached only when the name is free or overwrite is set
+           /\ result' = "ok" /\ fs' \in {Replace(fs, New), WriteThrough(fs, New)}
            /\ pc' = "done" /\ UNCHANGED req
 Next == CheckExists \/ Serialize \/ OpenWrite \/ OpenFirst \/ SerializeLate \/ WriteTo
 Spec == Init /\ [][Next]_vars
@@ -72,18 +67,16 @@ Outcomes(f, r) ==
     THEN IF LExists(f) /\ ~r.ow THEN {<<"OSError", f>>}
          ELSE IF r.ser = "fail" THEN {<<"Error", f>>}
          ELSE {<<"ok", WriteThrough(f, New)>>}
-    ELSE IF r.ser = "fail" THEN {<<"Error", f>>}
-         ELSE IF Exists(f) /\ ~r.ow THEN {<<"OSError", f>>}
-         ELSE IF Exists(f) THEN {<<"ok", Replace(f, New)>>, <<"ok", WriteThrough(f, New)>>}
-         ELSE IF f.a.t = "link" /\ ~r.ow THEN {<<"OSError", f>>, <<"ok", WriteThrough(f, New)>>, <<"ok", Replace(f, New)>>}
+    ELSE IF LExists(f) /\ ~r.ow THEN {<<"OSError", f>>}
+         ELSE IF r.ser = "fail" THEN {<<"Error", f>>}
          ELSE {<<"ok", WriteThrough(f, New)>>, <<"ok", Replace(f, New)>>}
 
 (* ---------------- properties ---------------- *)
 Fs0 == InitFs(req.dest)
 Done == pc = "done"
-(* an existing destination is never clobbered without overwrite=True (a dangling link counts as existing for    *)
+(* an existing destination is never clobbered without overwrite=True (the name is what counts: lexists - a dangling link and an empty file exist)   *)
 (* lexists-based writers; for exists-based ones the statement is ambiguous and both outcomes are allowed)        *)
-NoClobber == Done /\ ~req.ow /\ (Exists(Fs0) \/ (IsText /\ LExists(Fs0))) =>
+NoClobber == Done /\ ~req.ow /\ LExists(Fs0) =>
                /\ fs = Fs0 /\ result # "ok"
                /\ (req.ser = "ok" => result = "OSError")       \* with an unserialisable list either error may come first
 (* a write that fails for any reason leaves the destination as it was *)
